@@ -89,7 +89,7 @@ def setup(chk):
 
 def run(chk):
     setup(chk)
-    chk.run_proof_gate(ac.PROOFS)
+    chk.run_proof_gate(ac.PROOFS + ["proofs/AntsGettersProofs.v", "models/AntsGetters.v"])
     binary = ac.build(chk)
     if binary:
         try:
